@@ -692,3 +692,52 @@ def run_cases(modname: str, cases: List[Dict], args) -> List[Dict]:
         _worker_init()
         return [_run_one((modname, c)) for c in cases]
     return run_pool(modname, cases, workers=args.workers)
+
+
+# --------------------------------------------------------------------------------------
+# conveniences for check modules
+# --------------------------------------------------------------------------------------
+
+
+def collect_atoms(specs) -> List[str]:
+    from . import structures as S
+
+    out: List[str] = []
+    for s in specs:
+        if not s:
+            continue
+        for a in S.spec_atoms(s):
+            if a not in out:
+                out.append(a)
+    return out
+
+
+def simple_run_case(case: Dict, body, specs, int_atoms: bool = False) -> Dict:
+    lim = case.get("limits", {})
+    return explore_case(
+        case,
+        body,
+        collect_atoms(specs),
+        max_paths=lim.get("max_paths", 2000),
+        time_budget=lim.get("time", 60.0),
+        int_atoms=int_atoms,
+        options=case.get("options"),
+    )
+
+
+def simple_main(prop, modname, gen_cases, rule, bounds, functions, assumptions=None, argv=None, level="model_checking", extra=None) -> int:
+    from . import stubs
+
+    args = std_args(argv)
+    t0 = time.time()
+    cases = gen_cases(args.tier, args.seed)
+    reports = run_cases(modname, cases, args)
+    return finish(
+        prop, modname, args.tier, args.seed, reports, t0, level=level, rule=rule, bounds=bounds,
+        assumptions=stubs.stub_list() + list(assumptions or []), functions=functions, extra_coverage=extra,
+    )
+
+
+def limits(tier: str, quick=(2000, 45.0), thorough=(20000, 300.0)) -> Dict:
+    q = tier == "quick"
+    return {"max_paths": quick[0] if q else thorough[0], "time": quick[1] if q else thorough[1]}
